@@ -469,6 +469,7 @@ def diff_stage(rep, name, cases, judge, expand=None, max_report=5):
         fm = ex.submit(run_lines, model_bin(), cases, NCPU // 2)
         fi = ex.submit(run_lines, harness_bin(), cases, NCPU // 2)
         mo, io = fm.result(), fi.result()
+    rep.last_run = (cases, io)          # reused by the always-on oracle pass over the same cases
     dis = [(c, i, m) for c, i, m in zip(cases, io, mo) if i != m]
     bad_model = [c for c, m in zip(cases, mo) if m.startswith(("UNKNOWN-OP", "BADARGS", "DRIVER-EXN", "CRASH", "HANG"))]
     bad_impl = [c for c, i in zip(cases, io) if i.startswith(("UNKNOWN-OP", "BADARGS"))]
